@@ -593,4 +593,10 @@ def families(tier, seed):
         _pairs_batch(tier, seed),
         _triangle(tier, seed),
         _invariance(tier, seed),
+        _layouts(tier, seed),
     ]
+
+
+def _layouts(tier, seed):
+    from ..engine import with_array_layouts
+    return with_array_layouts(_pairs_batch(tier, seed), expect=("angular-equals-rotation-angle",))
